@@ -433,7 +433,7 @@ def simu_cases(draw):
                 bc_seed=draw(st.integers(0, 999)), dval=draw(st.integers(-4, 4)) / 2.0,
                 dlin=draw(st.integers(-2, 2)) / 2.0, load=draw(st.sampled_from(["none", "nodal", "surf", "volume", "nodal+surf"])),
                 lval=draw(st.integers(-6, 6)) / 2.0, dt=draw(st.sampled_from([0.05, 0.25, 1.0])),
-                init_seed=draw(st.integers(0, 999)))
+                init_seed=draw(st.integers(0, 999)), move=draw(st.sampled_from([None, "rotate", "stretch"])))
     if problem == "thermal":
         case.update(k=draw(st.integers(1, 20)) / 4.0, c=draw(st.integers(1, 12)) / 4.0,
                     thickness=1.0 if dim == 1 else draw(st.sampled_from([1.0, 0.5, 2.5])),
@@ -626,6 +626,29 @@ def check_simu(case, rec):
             else:
                 cmp("rate", weak.v, ded.speed, s)
                 cmp("accel", weak.a, ded.accel, s)
+    # ---- the same two simulations after their (shared) mesh was moved in place: the forms are integrated again on the new
+    # geometry, by the same form and field objects (the dedicated simulations themselves are covered by C14)
+    mv = case.get("move")
+    if mv:
+        rec.label("move:" + mv)
+        X = np.asarray(mesh.coord, float)
+        if mv == "rotate" and dim >= 2:
+            mesh.Rotate(30.0, (0.0, 0.0, 0.0), (0.0, 0.0, 1.0))
+        else:
+            A = np.eye(3)
+            A[0, 0] = 1.5
+            if dim >= 2:
+                A[1, 1], A[0, 1] = 0.75, 0.3
+            if dim == 3:
+                A[2, 2] = 1.25
+            mesh.coord = X @ A.T
+        Kd, Cd, Md, _ = ded.Get_K_C_M_F()
+        Kw, Cw, Mw, _ = weak.Get_K_C_M_F()
+        _mat_close(rec, Kw, Kd, "K_after_motion", sig, TOL_ID if mt == MatrixType.rigi else TOL_MAT)
+        if scheme != "static" or mt == MatrixType.mass:
+            _mat_close(rec, Cw, Cd, "C_after_motion", sigv if problem == "elastic" else sig, TOL_MAT, ref_scale=0.0)
+        if scheme == "hyperbolic":
+            _mat_close(rec, Mw, Md, "M_after_motion", sigv, TOL_MAT)
     rec.nontrivial(Ndof > nodes_lo.size * n)
 
 
